@@ -32,6 +32,14 @@ def spell_disc(rng, d, ri):
             forms += ["!%d" % (-d - 1)] * 2
     if ri is None and -40 <= d < 0:
         forms.append("!%d" % (-d - 1))
+    if ri is not None:
+        # expressions that carry the enum's integer type themselves: a suffixed literal, a byte literal, `T::MAX - k`
+        forms.append(("%d%s" % (d, ri)) if d >= 0 else ("-%d%s" % (-d, ri)))
+        if ri == "u8" and 33 <= d <= 126 and chr(d) not in "'\\":
+            forms += ["b'%s'" % chr(d)] * 2
+        realmax = {"u8": 255, "i8": 127, "u16": 65535, "i16": 32767, "i32": 2**31 - 1, "u32": 2**32 - 1, "i64": 2**63 - 1}.get(ri)
+        if realmax is not None and 0 <= realmax - d <= 50:
+            forms += ["%s::MAX - %d" % (ri, realmax - d)] * 2
     return rng.choice(forms)
 
 
@@ -50,7 +58,7 @@ class P(b1.Plugin):
     rule = ("enum definitions with 1-4 variants over unit/tuple/named shapes, payload types with niches or zero size (bool, char, "
             "NonZeroU8, &u8, Option<Box<u8>>, nested enum, ZST, u8), #[repr] in {none,u8,i8,u16,i32,u64,isize,C,'C, u8','u8, align(4)','align(2), u8','align(4), i8',"
             "align(8),align(2)}, explicit discriminants incl. negative and >127/>32767 where the repr allows, written as literals or as expressions "
-            "(`a << b`, `a & m`, `a | b`, `a ^ b`, the type-dependent `!k`, named constants `K`, `K + 0`, `self::K`); all ordered value pairs, "
+            "(`a << b`, `a & m`, `a | b`, `a ^ b`, the type-dependent `!k`, suffixed / byte literals and `T::MAX - k` of the repr type, named constants `K`, `K + 0`, `self::K`), the repr hints in one attribute or spread over several; all ordered value pairs, "
             "each comparison repeated with both operands embedded in #[repr(C)] wrappers with different trailing bytes (ops cmpw/pcmpw). "
             "distinct_nontrivial = definitions with >=2 variants or a payload, on which at least two different results were observed")
 
@@ -103,7 +111,17 @@ class P(b1.Plugin):
                     v.disc = cur
                 used.add(cur)
         if r is not None:
-            td.attr_src.append("#[repr(%s)]" % r)
+            parts = [x.strip() for x in r.split(",")]
+            if len(parts) > 1 and rng.random() < 0.5:
+                # the hints spread over several #[repr] attributes, in either order
+                if rng.random() < 0.5:
+                    parts.reverse()
+                    if "C" in parts and all_unit:
+                        parts = [x for x in parts if x != "C"]
+                for x in parts:
+                    td.attr_src.append("#[repr(%s)]" % x)
+            else:
+                td.attr_src.append("#[repr(%s)]" % r)
         metas = {"ord": ["Ord"], "partialord": ["PartialOrd"], "both": ["Ord", "PartialOrd"]}[mode]
         rng.shuffle(metas)
         td.traits = [", ".join(metas)]
@@ -151,7 +169,7 @@ class P(b1.Plugin):
 
 def main(tier):
     t0 = time.time()
-    proof = common.proof_obligations("C04")
+    proof = common.proof_obligations("C04", modules=["EduceModel.Props.C04", "EduceModel.Props.E2E"])
     n_defs, cap_vals, cap_pairs = (200, 6, 150) if tier == "quick" else (2000, 9, 500)
     tie = b1.run_b1("C04", P(cap_pairs), n_defs, cap_vals, common.seed())
     return common.finish("C04", tier, t0, proof, tie)
